@@ -789,4 +789,32 @@ def xray3Matrix [Add α] [Sub α] [Mul α] [Div α] [Zero α] (I0 I1 : Nat → I
 
 end X3Scatter
 
+
+/-! ## Zero-padded / truncated N-d DFT (`DFT(input_shape, axes, axes_shape)`) and its inverses -/
+
+section DFTPad
+variable {α : Type}
+
+/-- flat index, in an array of shape `ms`, of the element with the multi-index of flat index `p` of shape `ns` -/
+def embedIdx : List Nat → List Nat → Nat → Nat
+  | _ :: ns, _ :: ms, p => (p / prodL ns) * prodL ms + embedIdx ns ms (p % prodL ns)
+  | _, _, p => p
+
+/-- `DFT._eval = fftn(x, s=axes_shape, axes=axes, norm)`: the input (shape `ns`) is cropped / zero-padded to the
+    transform shape `ms` (`padNd`), then transformed over the marked axes (`dftAxes`), scale `s` -/
+def dftFwdPad [Add α] [Mul α] [Zero α] [One α] (ns ms : List Nat) (ws : List (Option α)) (s : α) (x : V α) : V α :=
+  fun f => s * dftAxes ms ws (padNd ns ms x) f
+
+/-- `DFT.inv` AS CODED: `ifftn(z, s=inv_axes_shape, axes)` crops / zero-pads the SPECTRUM (shape `ms`) to the input shape
+    `ns` and applies the inverse transform of that size (roots `wns` of the orders `ns`), scale `s'` -/
+def dftInvCodedNd [Add α] [Mul α] [Zero α] [One α] (ns ms : List Nat) (wns : List (Option α)) (s' : α) (z : V α) : V α :=
+  fun p => s' * dftAxes ns wns (padNd ms ns z) p
+
+/-- the inverse the documentation promises when no axis is truncated: inverse transform at the transform shape `ms`
+    (roots `wms`), then crop to the input shape `ns` -/
+def dftInvDocNd [Add α] [Mul α] [Zero α] [One α] (ns ms : List Nat) (wms : List (Option α)) (s' : α) (z : V α) : V α :=
+  fun p => s' * dftAxes ms wms z (embedIdx ns ms p)
+
+end DFTPad
+
 end Scico.LinOps
